@@ -60,6 +60,12 @@ __attribute__((weak)) const struct pipe_type *pd_types_c(const char *name);
 __attribute__((weak)) const struct pipe_type *pd_types_d(const char *name);
 __attribute__((weak)) const struct pipe_type *pd_types_e(const char *name);
 __attribute__((weak)) const struct pipe_type *pd_types_f(const char *name);
+__attribute__((weak)) const struct pipe_type *pd_types_g(const char *name);
+__attribute__((weak)) const struct pipe_type *pd_types_h(const char *name);
+__attribute__((weak)) const struct pipe_type *pd_types_i(const char *name);
+__attribute__((weak)) const struct pipe_type *pd_types_j(const char *name);
+__attribute__((weak)) const struct pipe_type *pd_types_k(const char *name);
+__attribute__((weak)) const struct pipe_type *pd_types_l(const char *name);
 /* return true if the option was handled (and the "ret" line printed) */
 __attribute__((weak)) bool pd_option_a(struct upipe *, const struct pipe_type *, bool set, const char *name, const char *value);
 __attribute__((weak)) bool pd_option_b(struct upipe *, const struct pipe_type *, bool set, const char *name, const char *value);
@@ -67,6 +73,12 @@ __attribute__((weak)) bool pd_option_c(struct upipe *, const struct pipe_type *,
 __attribute__((weak)) bool pd_option_d(struct upipe *, const struct pipe_type *, bool set, const char *name, const char *value);
 __attribute__((weak)) bool pd_option_e(struct upipe *, const struct pipe_type *, bool set, const char *name, const char *value);
 __attribute__((weak)) bool pd_option_f(struct upipe *, const struct pipe_type *, bool set, const char *name, const char *value);
+__attribute__((weak)) bool pd_option_g(struct upipe *, const struct pipe_type *, bool set, const char *name, const char *value);
+__attribute__((weak)) bool pd_option_h(struct upipe *, const struct pipe_type *, bool set, const char *name, const char *value);
+__attribute__((weak)) bool pd_option_i(struct upipe *, const struct pipe_type *, bool set, const char *name, const char *value);
+__attribute__((weak)) bool pd_option_j(struct upipe *, const struct pipe_type *, bool set, const char *name, const char *value);
+__attribute__((weak)) bool pd_option_k(struct upipe *, const struct pipe_type *, bool set, const char *name, const char *value);
+__attribute__((weak)) bool pd_option_l(struct upipe *, const struct pipe_type *, bool set, const char *name, const char *value);
 
 const struct pipe_type *registry_find(const char *name)
 {
@@ -79,6 +91,12 @@ const struct pipe_type *registry_find(const char *name)
     if (pd_types_d && (t = pd_types_d(name))) return t;
     if (pd_types_e && (t = pd_types_e(name))) return t;
     if (pd_types_f && (t = pd_types_f(name))) return t;
+    if (pd_types_g && (t = pd_types_g(name))) return t;
+    if (pd_types_h && (t = pd_types_h(name))) return t;
+    if (pd_types_i && (t = pd_types_i(name))) return t;
+    if (pd_types_j && (t = pd_types_j(name))) return t;
+    if (pd_types_k && (t = pd_types_k(name))) return t;
+    if (pd_types_l && (t = pd_types_l(name))) return t;
     return NULL;
 }
 
@@ -114,6 +132,12 @@ void registry_option(struct upipe *upipe, const struct pipe_type *type, bool set
     if (pd_option_d && pd_option_d(upipe, type, set, name, value)) return;
     if (pd_option_e && pd_option_e(upipe, type, set, name, value)) return;
     if (pd_option_f && pd_option_f(upipe, type, set, name, value)) return;
+    if (pd_option_g && pd_option_g(upipe, type, set, name, value)) return;
+    if (pd_option_h && pd_option_h(upipe, type, set, name, value)) return;
+    if (pd_option_i && pd_option_i(upipe, type, set, name, value)) return;
+    if (pd_option_j && pd_option_j(upipe, type, set, name, value)) return;
+    if (pd_option_k && pd_option_k(upipe, type, set, name, value)) return;
+    if (pd_option_l && pd_option_l(upipe, type, set, name, value)) return;
     const char *t = type ? type->name : "";
     int err = UBASE_ERR_UNHANDLED;
     if (!strcmp(t, "skip") && !strcmp(name, "offset")) {
@@ -154,6 +178,12 @@ __attribute__((weak)) bool pd_ext_c(int nt, char **tok);
 __attribute__((weak)) bool pd_ext_d(int nt, char **tok);
 __attribute__((weak)) bool pd_ext_e(int nt, char **tok);
 __attribute__((weak)) bool pd_ext_f(int nt, char **tok);
+__attribute__((weak)) bool pd_ext_g(int nt, char **tok);
+__attribute__((weak)) bool pd_ext_h(int nt, char **tok);
+__attribute__((weak)) bool pd_ext_i(int nt, char **tok);
+__attribute__((weak)) bool pd_ext_j(int nt, char **tok);
+__attribute__((weak)) bool pd_ext_k(int nt, char **tok);
+__attribute__((weak)) bool pd_ext_l(int nt, char **tok);
 
 bool registry_command(int nt, char **tok)
 {
@@ -163,5 +193,11 @@ bool registry_command(int nt, char **tok)
     if (pd_ext_d && pd_ext_d(nt, tok)) return true;
     if (pd_ext_e && pd_ext_e(nt, tok)) return true;
     if (pd_ext_f && pd_ext_f(nt, tok)) return true;
+    if (pd_ext_g && pd_ext_g(nt, tok)) return true;
+    if (pd_ext_h && pd_ext_h(nt, tok)) return true;
+    if (pd_ext_i && pd_ext_i(nt, tok)) return true;
+    if (pd_ext_j && pd_ext_j(nt, tok)) return true;
+    if (pd_ext_k && pd_ext_k(nt, tok)) return true;
+    if (pd_ext_l && pd_ext_l(nt, tok)) return true;
     return false;
 }
